@@ -118,6 +118,13 @@ var S *sched
 
 var runMu sync.Mutex
 
+var epoch int64
+
+// Epoch identifies the current controlled execution. Shim objects that live
+// in package-level variables use it to drop state left over from an earlier
+// execution (every execution starts from the initial state).
+func Epoch() int64 { return epoch }
+
 // Active reports whether a controlled execution is running.
 func Active() bool { return S != nil && !S.aborting }
 
@@ -137,6 +144,7 @@ func Run(cfg Config, body func()) *Exec {
 	if cfg.MaxSteps == 0 {
 		cfg.MaxSteps = 1000000
 	}
+	epoch++
 	s := &sched{cfg: cfg, end: make(chan struct{}), closed: map[uintptr]bool{}, raceSeen: map[string]bool{}}
 	if cfg.Races {
 		s.hb = newHB()
